@@ -53,7 +53,7 @@ def run(pid, tier):
     t0 = time.time()
     d = common.workdir(pid + '-validation')
     fd = os.path.join(d, 'docs.ndjson')
-    gen = common.tlc('GenValidation', cfg='GenAlgo.cfg', env={'OUTFILE': fd, 'TIER': tier}, workers=1, name=pid + '-gen', timeout=3000, xmx='8g')
+    gen = common.tlc('GenValidation', cfg='GenAlgo.cfg', env={'OUTFILE': fd, 'TIER': tier, 'SEED': str(common.seed() % 1000)}, workers=1, name=pid + '-gen', timeout=3000, xmx='8g')
     if gen.rc != 0 or 'GENERATED' not in gen.out:
         raise ToolError('GenValidation failed: see work/tlc-%s-gen.log' % pid)
     docs = common.read_ndjson(fd)
@@ -142,6 +142,6 @@ def run(pid, tier):
            'certain_witnesses_per_rule': dict(must_w), 'canaries_rejected': len(cans),
            'known_finding_hits': {k: len(v) for k, v in verdict.known_hits.items()}}
     common.write_evidence(pid, tier, 'model_checking', cov, time.time() - t0, len(verdict.violations),
-                          ['documents conform to the schema shape (deserialization errors are not generated); one rule family varies at a time over a valid base document; index locations with explicit matrices or coordinates; '
+                          ['documents conform to the schema shape (deserialization errors are not generated); one rule family varies at a time over a valid base document, plus a cross stratum in which a job family, a fleet family and the objectives vary together (sampled); index locations with explicit matrices or coordinates; '
                            'no clustering / recharge / skills / limits; where the documentation is silent or ambiguous the rule is only in the May reading (see Validation.tla)'])
     return rc
